@@ -52,6 +52,17 @@ def adversarial_catalogue():
     add("type_alias_self_when", "type T: T when self > 0\n")
     add("type_alias_cycle", "type T: U\ntype U: T\n")
     add("generic_self", "class A[T]: A[T]\n")
+    add("generic_self_other_argument", "class A[T]: A[Int]\n    def x: Int := 1\n")
+    add("generic_self_nested_argument", "class A[T]: A[List[T]]\n")
+    add("generic_mutual", "class A[T]: B[T]\nclass B[U]: A[U]\n")
+    add("generic_mutual_other_argument", "class A[T]: B[Int]\nclass B[U]: A[Str]\ndef a := A[Int]()\n")
+    add("generic_cycle3", "class A[T]: B[T]\nclass B[T]: C[T]\nclass C[T]: A[Int]\n")
+    add("generic_and_plain_cycle", "class A: B[Int]\nclass B[T]: A\n")
+    add("cycle_through_second_parent", "class P\nclass A: P, B\nclass B: P, A\n")
+    add("cycle_with_use", "class A: B\nclass B: A\ndef a := A()\nprint(a)\n")
+    add("cycle_exception", "class E1(msg: Str): E2(msg)\nclass E2(msg: Str): E1(msg)\ndef f() raise [E1] => raise E1(\"m\")\n")
+    add("interface_cycle", "type I: J\ntype J: I\n")
+    add("alias_cycle_generic", "type T[A]: T[Int]\n")
     add("dup_parent", "class A\nclass B: A, A\n")
     # empty tuples and odd definitions
     add("empty_tuple_lhs", "def () := 3\n")
@@ -289,8 +300,51 @@ def adversarial_catalogue():
 
 
 @st.composite
+def inheritance_shapes(draw):
+    """Structurally generated class graphs: 1-5 classes, plain or generic, parents drawn among ALL classes (cycles,
+    self references, diamonds), generic arguments drawn among the class's own parameter, primitives and instantiations."""
+    n = draw(st.integers(1, 5))
+    names = ["K%d" % i for i in range(n)]
+    arity = [draw(st.sampled_from([0, 0, 1, 1, 2])) for _ in range(n)]
+    lines = []
+    for i, c in enumerate(names):
+        params = ["T", "U"][:arity[i]]
+        head = "class %s%s" % (c, "[%s]" % ", ".join(params) if params else "")
+        if draw(st.booleans()):
+            head += "(def f%d: Int)" % i
+        parents = []
+        for _ in range(draw(st.integers(0, 2))):
+            j = draw(st.integers(0, n - 1))
+            args = []
+            for _k in range(arity[j]):
+                args.append(draw(st.sampled_from(params + ["Int", "Str", "List[Int]", names[draw(st.integers(0, n - 1))]])))
+            p = names[j] + ("[%s]" % ", ".join(args) if args else "")
+            if "(def" in head and draw(st.booleans()):
+                p += "(f%d)" % i
+            parents.append(p)
+        if parents:
+            head += ": " + ", ".join(parents)
+        lines.append(head)
+        if draw(st.booleans()):
+            lines.append("    def g%d: Int := %d" % (i, i))
+    if draw(st.booleans()):
+        j = draw(st.integers(0, n - 1))
+        lines.append("def obj := %s%s(%s)" % (names[j], "[Int]" * min(arity[j], 1) if arity[j] == 1 else "",
+                                              "1" if draw(st.booleans()) else ""))
+    return "\n".join(lines) + "\n"
+
+
+@st.composite
 def _case(draw, texts):
-    gen = draw(st.sampled_from(["mut", "mut", "mut", "rand", "multi"]))
+    gen = draw(st.sampled_from(["mut", "mut", "mut", "rand", "multi", "inherit"]))
+    if gen == "inherit":
+        text = draw(inheritance_shapes())
+        if draw(st.integers(0, 3)) == 0:
+            half = len(text) // 2
+            cut = text.index("\n", half) + 1 if "\n" in text[half:] else len(text)
+            return {"gen": "inherit", "files": [[text[:cut], "src/a.mamba"], [text[cut:], "src/b.mamba"]],
+                    "annotate": draw(st.booleans()), "dir": "src"}
+        return {"gen": "inherit", "files": [[text, None]], "annotate": draw(st.booleans())}
     annotate = draw(st.booleans())
     if gen == "rand":
         text = draw(mutate.random_text())
@@ -318,7 +372,9 @@ class C03:
     rule = ("inputs: (mut) 1-4 token/line-level mutations (delete/insert/replace/swap/duplicate/"
             "truncate, line delete/duplicate/swap, indentation shift, splice) of the repository's "
             "tests/resource/**/*.mamba and of /verif/pbt/seeds, (rand) random sequences over Mamba's "
-            "lexical vocabulary plus hostile characters, (multi) 2-4 such files as one project, (adv) a "
+            "lexical vocabulary plus hostile characters, (multi) 2-4 such files as one project, (inherit) "
+            "structurally generated class graphs of 1-5 plain or generic classes whose parents are drawn among all classes "
+            "(self references, cycles, diamonds, varying generic arguments, split over two files), (adv) a "
             "fixed catalogue of adversarial shapes; bounds: <=1 KiB and <=200 lines per file, nesting <=40, "
             "<=4 files. Non-trivial: the (first) text lexes to >=3 tokens, i.e. got past the first lexer "
             "error path; distinct by SHA-1 of files+flag. Oracle: isolated worker returns ok (one string "
